@@ -548,8 +548,10 @@ Fixpoint all2 {A B} (f : A -> B -> bool) (a : list A) (b : list B) : bool :=
 Definition same_map {K V W} `{EqDec K} (f : V -> W -> bool) (a : list (K * V)) (b : list (K * W)) : bool :=
   Nat.eqb (List.length a) (List.length b) && nodupb (map fst b) &&
   forallb (fun e => match AL.lookup (fst e) b with Some w => f (snd e) w | None => false end) a.
+(* same multiset *)
+Definition count_of {A} `{EqDec A} (x : A) (l : list A) : nat := List.length (List.filter (eqb x) l).
 Definition same_set {A} `{EqDec A} (a b : list A) : bool :=
-  Nat.eqb (List.length a) (List.length b) && forallb (fun x => memb x b) a && forallb (fun x => memb x a) b.
+  Nat.eqb (List.length a) (List.length b) && forallb (fun x => Nat.eqb (count_of x a) (count_of x b)) a.
 
 Definition lm_close (a b : landmark) : bool :=
   Z.eqb (l_key a) (l_key b) && veqb (l_X a) (l_X b) && eqb (l_obs a) (l_obs b).
